@@ -64,6 +64,14 @@ def gen_array(rng, kind, nops):
     for _ in range(nops):
         r = rng.random()
         i = idx3(rng)
+        # observers / Swap (members that only show up when used: range-for, Swap)
+        if r < 0.06:
+            ops.append("ASwap:%d:%d:%d" % (i, rng.randrange(6), rng.randrange(6)))
+            continue
+        if r < 0.11:
+            ops.append("AIter:%d" % i)
+            continue
+        r = (r - 0.11) / 0.89
         if r < 0.30:
             ops.append("AAppendItem:%d:%s" % (i, el()))
         elif r < 0.40 and grow < 7:
@@ -113,6 +121,10 @@ def gen_string(rng, w, nops):
     for _ in range(nops):
         r = rng.random()
         i = idx3(rng)
+        if r < 0.12:
+            ops.append(rng.choice(["SIter:%d", "SLast:%d", "SIsEmpty:%d", "SStreamOut:%d", "SStreamOut:%d"]) % i)
+            continue
+        r = (r - 0.12) / 0.88
         if r < 0.10:
             ops.append("SAppendCstr:%d:%s" % (i, U()))
         elif r < 0.16:
@@ -183,6 +195,10 @@ def gen_stream(rng, w, nops):
     for _ in range(nops):
         r = rng.random()
         i = idx3(rng)
+        if r < 0.09:
+            ops.append(rng.choice(["TIter:%d", "TStreamOut:%d"]) % i)
+            continue
+        r = (r - 0.09) / 0.91
         if r < 0.10:
             ops.append("TAppendCstr:%d:%s" % (i, U()))
         elif r < 0.18:
@@ -248,6 +264,10 @@ def gen_view(rng, w, nops):
     for _ in range(nops):
         r = rng.random()
         i = idx3(rng)
+        if r < 0.18:
+            ops.append(rng.choice(["VIter:%d", "VStreamOut:%d", "VIsEmpty:%d"]) % i)
+            continue
+        r = (r - 0.18) / 0.82
         if r < 0.25:
             ops.append("VNew:%d:%s" % (i, U(maxlen=3)))
         elif r < 0.40:
@@ -491,7 +511,7 @@ def check(tier):
     rep.cov = dict(base_cov)
     rep.cov.update({
         "trusted_base": vlib.TRUSTED_BASE_COMMON + [
-            "modelled: every public operation of Array / String / StringStream / StringView listed in coq/SeqModel.v (aop, sop, top, vop) over a block heap; Memory::Copy between containers at cell granularity; ordering operators (<, <=, >, >=), Sort and Swap are not part of C14",
+            "modelled: every public operation of Array / String / StringStream / StringView listed in coq/SeqModel.v (aop, sop, top, vop) over a block heap; Memory::Copy between containers at cell granularity; incl. Swap, range-for (begin/end), Last, IsEmpty and the templated stream-insertion operators (into a foreign sink type and into a StringStream subtype); ordering operators (<, <=, >, >=) and Sort are C15",
             "alignment / SIMD load-store behaviour of Memory::Copy / SetToZero: runtime only (exhaustive grid test), not proved"],
         "theorems": [{"name": n, "assumptions": a} for n, a in theorems],
         "evaluations": len(cases) + grid_combos + n_mem_samples + n_nested,
